@@ -203,7 +203,9 @@ func (c *Ctx) Finish() {
 	}
 	c.mu.Unlock()
 
-	if c.Replay == "" && !c.Selftest {
+	// evidence describes /repo itself: a development run against a scratch tree
+	// (VERIF_REPO) leaves the evidence files alone
+	if c.Replay == "" && !c.Selftest && RepoDir == "/repo" {
 		_ = os.MkdirAll(filepath.Join(VerifDir, "evidence"), 0o755)
 		b, _ := json.MarshalIndent(ev, "", " ")
 		if err := os.WriteFile(filepath.Join(VerifDir, "evidence", c.Property+".json"), append(b, '\n'), 0o644); err != nil {
